@@ -44,11 +44,17 @@ def one_node(ctx, f, g, cfg):
     acq = g.acquires()
     n_ins = 0
     creators = []
+    via = set()
     for p, b in f.bodies.items():
+        if not g.lm.analyse(b)["acq"]:
+            continue
+        # the function that takes the map's lock, with its private helpers inlined (the insertion may sit in one of them)
+        b = f.view(b)
         r = g.lm.analyse(b)
         ids = [i for i, a in enumerate(r["acq"]) if a["cls"] == NODE_MAP]
         if not ids:
             continue
+        via |= set(b.inlined)
         sl = Slicer(f, b)
         for bb, t in b.calls():
             nm = callee_def(t).rsplit("::", 1)[-1]
@@ -101,7 +107,7 @@ def one_node(ctx, f, g, cfg):
     extra = []
     for p in sorted(set(ctors)):
         root = f.bodies[p].root or p
-        if root in allowed or p in allowed:
+        if root in allowed or p in allowed or root in via or p in via:
             continue
         if "INBOUND_NODE" in p or "INBOUND_NODE" in root:
             continue
